@@ -65,8 +65,18 @@ impl Story {
         // Remove observer for this specific variable
         match specific_variable_name {
             Some(specific_variable_name) => {
+                let index = self
+                    .variable_observers
+                    .get(specific_variable_name)
+                    .and_then(|v| v.iter().position(|x| Rc::ptr_eq(x, observer)));
+
+                let Some(index) = index else {
+                    return Err(StoryError::BadArgument(format!(
+                        "The observer is not registered for variable '{specific_variable_name}'."
+                    )));
+                };
+
                 if let Some(v) = self.variable_observers.get_mut(specific_variable_name) {
-                    let index = v.iter().position(|x| Rc::ptr_eq(x, observer)).unwrap();
                     v.remove(index);
 
                     if v.is_empty() {
@@ -77,10 +87,13 @@ impl Story {
             None => {
                 // Remove observer for all variables
                 let mut keys_to_remove = Vec::new();
+                let mut found = false;
 
                 for (k, v) in self.variable_observers.iter_mut() {
-                    let index = v.iter().position(|x| Rc::ptr_eq(x, observer)).unwrap();
-                    v.remove(index);
+                    if let Some(index) = v.iter().position(|x| Rc::ptr_eq(x, observer)) {
+                        v.remove(index);
+                        found = true;
+                    }
 
                     if v.is_empty() {
                         keys_to_remove.push(k.to_string());
@@ -89,6 +102,12 @@ impl Story {
 
                 for key_to_remove in keys_to_remove.iter() {
                     self.variable_observers.remove(key_to_remove);
+                }
+
+                if !found {
+                    return Err(StoryError::BadArgument(
+                        "The observer is not registered for any variable.".to_owned(),
+                    ));
                 }
             }
         }
